@@ -187,4 +187,30 @@ __CPROVER_assigns(*pdu, __CPROVER_object_whole(pdu->token))
 __CPROVER_frees(pdu_block_freeable(pdu))
 __CPROVER_ensures(POST_ADDDATA(__CPROVER_return_value, pdu, len, __CPROVER_old(pdu->used_size), __CPROVER_old(pdu->data)))
 ;
+
+/* ---- frame contracts of the option editors (bounded-tier units state the model equality in the harness) */
+int coap_remove_option_frame_contract(coap_pdu_t *pdu, coap_option_num_t number)
+__CPROVER_requires(PDU_WF_MEM(pdu) && PDU_WF_SCALAR(pdu))
+__CPROVER_assigns(*pdu, __CPROVER_object_whole(pdu->token))
+__CPROVER_frees(pdu_block_freeable(pdu))
+__CPROVER_ensures(__CPROVER_return_value == 0 || __CPROVER_return_value == 1)
+;
+size_t coap_insert_option_frame_contract(coap_pdu_t *pdu, coap_option_num_t number, size_t len, const uint8_t *data)
+__CPROVER_requires(PDU_WF_MEM(pdu) && PDU_WF_SCALAR(pdu) && len <= MAXOPTLEN && (data == NULL || __CPROVER_r_ok(data, len)))
+__CPROVER_assigns(*pdu, __CPROVER_object_whole(pdu->token))
+__CPROVER_frees(pdu_block_freeable(pdu))
+__CPROVER_ensures(__CPROVER_return_value <= MAXOPTLEN + 5)
+;
+size_t coap_update_option_frame_contract(coap_pdu_t *pdu, coap_option_num_t number, size_t len, const uint8_t *data)
+__CPROVER_requires(PDU_WF_MEM(pdu) && PDU_WF_SCALAR(pdu) && len <= MAXOPTLEN && (data == NULL || __CPROVER_r_ok(data, len)))
+__CPROVER_assigns(*pdu, __CPROVER_object_whole(pdu->token))
+__CPROVER_frees(pdu_block_freeable(pdu))
+__CPROVER_ensures(__CPROVER_return_value <= MAXOPTLEN + 5)
+;
+size_t coap_add_option_internal_frame_contract(coap_pdu_t *pdu, coap_option_num_t number, size_t len, const uint8_t *data)
+__CPROVER_requires(PDU_WF_MEM(pdu) && PDU_WF_SCALAR(pdu) && len <= MAXOPTLEN && (data == NULL || __CPROVER_r_ok(data, len)))
+__CPROVER_assigns(*pdu, __CPROVER_object_whole(pdu->token))
+__CPROVER_frees(pdu_block_freeable(pdu))
+__CPROVER_ensures(__CPROVER_return_value <= MAXOPTLEN + 5)
+;
 #endif
